@@ -186,6 +186,7 @@ def run_part(pid, part, tier, tmp, t_end):
     env = dict(os.environ)
     env.setdefault('ASAN_OPTIONS', 'detect_leaks=0:halt_on_error=1:abort_on_error=0:detect_stack_use_after_return=0:quarantine_size_mb=16')
     env.setdefault('UBSAN_OPTIONS', 'print_stacktrace=1:halt_on_error=1')
+    env.setdefault('TSAN_OPTIONS', 'halt_on_error=0:exitcode=0:report_signal_unsafe=0')   # reports are counted by the harness (__tsan_on_report)
     env['TZ'] = 'UTC'
     env['VERIF_REPO'] = build.REPO
     env['VERIF_DIR'] = VERIF
@@ -288,7 +289,7 @@ def conclude(pid, chk, tier, recs, wall, build_s):
         else:
             key = (v.get('clause'), v.get('mode'), tuple(v.get('tags', [])))
             unknown.setdefault(key, []).append(v)
-    rdir = os.path.join(VERIF, 'build', 'replays')
+    rdir = os.path.join(VERIF, 'build', 'replays') if os.path.realpath(build.REPO) == '/repo' else os.path.join(VERIF, build.bdir(), 'replays')
     os.makedirs(rdir, exist_ok=True)
     for fid, (f, cnt) in known_hit.items():
         print('KNOWN-FINDING: property=%s %s [%s; %d reported case(s) this run]' % (pid, f['text'], fid, cnt))
@@ -324,13 +325,15 @@ def conclude(pid, chk, tier, recs, wall, build_s):
         cov['traces_validated_against_impl'] = ev['traces']
         cov['states_per_part'] = {k: len(v) for k, v in states.items()}
     if level == 'translation_validation':
-        cov['programs'] = extra.get('programs', counters.get('programs', 0))
-        cov['disagreements_checked'] = extra.get('disagreements_checked', ev['evaluations'])
+        cov['programs'] = sum(v for k, v in counters.items() if k.endswith(':programs'))
+        cov['disagreements_checked'] = sum(v for k, v in counters.items() if k.endswith(':disagreements_checked')) or ev['evaluations']
     evd = {'property_id': pid, 'tier': tier, 'seed': SEED, 'level': level, 'coverage': cov,
            'assumptions': chk.get('assumptions', []), 'wall_s': round(wall, 2), 'violations': nviol,
            'build_s': round(build_s, 2), 'repo': build.REPO}
-    os.makedirs(os.path.join(VERIF, 'evidence'), exist_ok=True)
-    json.dump(evd, open(os.path.join(VERIF, 'evidence', pid + '.json'), 'w'), indent=1)
+    # evidence/ holds what the checks found on /repo itself; runs against another tree (VERIF_REPO=..., mutant testing) must not overwrite it
+    evdir = os.path.join(VERIF, 'evidence') if os.path.realpath(build.REPO) == '/repo' else os.path.join(VERIF, build.bdir(), 'evidence')
+    os.makedirs(evdir, exist_ok=True)
+    json.dump(evd, open(os.path.join(evdir, pid + '.json'), 'w'), indent=1)
     print('%s %s: evaluations=%d distinct_nontrivial=%d states=%d exhaustive=%s violations=%d known=%d wall=%.1fs (build %.1fs)' % (
         pid, tier, ev['evaluations'], ev['nontrivial'], nstates, all_done, nviol, len(known_hit), wall, build_s))
     if outcomes:
@@ -352,6 +355,7 @@ def replay(pid, path):
     env = dict(os.environ)
     env.setdefault('ASAN_OPTIONS', 'detect_leaks=0:halt_on_error=1:quarantine_size_mb=16')
     env.setdefault('UBSAN_OPTIONS', 'print_stacktrace=1:halt_on_error=1')
+    env.setdefault('TSAN_OPTIONS', 'halt_on_error=0:exitcode=0:report_signal_unsafe=0')   # reports are counted by the harness (__tsan_on_report)
     env['TZ'] = 'UTC'
     env['VERIF_REPO'] = build.REPO
     env['VERIF_DIR'] = VERIF
